@@ -12,6 +12,8 @@ import DeapModel.Lemmas.C11Add
 import DeapModel.Lemmas.C11TotalOps
 import DeapModel.Lemmas.C11Ex
 import DeapModel.Lemmas.C11Hist
+import DeapModel.Lemmas.C11Semantic
+import DeapModel.Lemmas.C11Pset
 
 namespace C11
 open GpTree
@@ -1306,6 +1308,195 @@ example : (∀ s ∈ [(⟨.cx 0 1, some ⟨fun l => some l.length, 5, 2⟩⟩ : 
       · exact ⟨1, rfl⟩,
    by intro t ht; simp at ht; rcases ht with rfl | rfl <;> simp⟩
 
+/-! ## Geometric semantic operators (`mutSemantic`, `cxSemantic`)
+
+Both operators work IN PLACE (`new_ind = individual; new_ind.insert(0, …)`): the returned trees are the parent
+objects, like every DEAP variation operator (`algorithms.varAnd` clones before it calls them).  The node OBJECTS of
+the parents, of the random trees (twice, `extend(tr)` is called two times per child) and — for `cxSemantic` — of the
+first child are shared between the returned lists; nodes are never mutated in place by any operator (`mutEphemeral`
+replaces the list element), and `PrimitiveTree.__deepcopy__` shares them as well, so no clause of C02 / C11 is touched
+(observation).  At list level sharing is invisible: the model returns values. -/
+
+/-- **`mutSemantic` is closed.**  Over a GSGP signature (`SemOK`: `add`, `mul`, `sub` binary and `lf` unary over the
+type `ρ`, which also accepts the `object`-typed constant `ms`), a parent and random trees that are well-formed trees for
+a `ρ` slot give a well-formed tree for a `ρ` slot — whatever `ms` is and for every tape. -/
+theorem semantic_mut_closed {sub : Nat → Nat → Bool} {mapping : String → Option Prim} {reprF : Float → String} {ρ : Nat}
+    {ind out : List Prim} {gen : Tape → R (List Prim × Tape)} {ms : Option Float} {tp tp' : Tape}
+    (hok : ∀ pc, semPieces mapping = some pc → SemOK sub pc ρ)
+    (hind : WellFormed sub ρ ind)
+    (hgen : ∀ tp o tp', gen tp = .ok (o, tp') → WellFormed sub ρ o)
+    (h : mutSemantic mapping reprF ind gen ms tp = .ok (out, tp')) :
+    WellFormed sub ρ out := by
+  obtain ⟨pc, tr1, tp1, tr2, tp2, v, hpc, h1, h2, _, rfl⟩ := mutSemantic_ok h
+  obtain ⟨ti, hti, rfl⟩ := hind
+  obtain ⟨t1, ht1, rfl⟩ := hgen _ _ _ h1
+  obtain ⟨t2, ht2, rfl⟩ := hgen _ _ _ h2
+  exact ⟨_, semMutTree_wt (hok pc hpc) _ hti ht1 ht2, (semMutList_flatten _ _ _ _ _).symm⟩
+
+theorem gs_ok : ∀ pc, semPieces gsMapping = some pc → SemOK subTrue pc 0 := by
+  intro pc h
+  have : pc = ⟨gsLf, gsMul, gsAdd, gsSub⟩ := by
+    simp [semPieces, gsMapping] at h; exact h.symm
+  subst this
+  constructor <;> rfl
+
+example : (∀ pc, semPieces gsMapping = some pc → SemOK subTrue pc 0) ∧ WellFormed subTrue 0 [gsX] ∧
+    (∀ tp o tp', gsGen tp = .ok (o, tp') → WellFormed subTrue 0 o) ∧
+    (mutSemantic gsMapping (fun _ => "0.5") [gsX] gsGen (some 0.5) []).toOption.map (fun r => r.1.map (·.name)) =
+      some ["add", "ARG0", "mul", "0.5", "sub", "lf", "ARG0", "lf", "ARG0"] := by
+  refine ⟨gs_ok, ⟨.node gsX [], by decide, rfl⟩, ?_, by decide⟩
+  intro tp o tp' h
+  simp [gsGen] at h
+  obtain ⟨rfl, _⟩ := h
+  exact ⟨.node gsX [], by decide, rfl⟩
+
+/-- arities only: with `lf` unary and `add`, `mul`, `sub` binary (whatever the types), complete prefix expressions
+give a complete prefix expression -/
+theorem semantic_mut_complete {mapping : String → Option Prim} {reprF : Float → String}
+    {ind out : List Prim} {gen : Tape → R (List Prim × Tape)} {ms : Option Float} {tp tp' : Tape}
+    (hok : ∀ pc, semPieces mapping = some pc → SemArity pc)
+    (hind : complete ind = true)
+    (hgen : ∀ tp o tp', gen tp = .ok (o, tp') → complete o = true)
+    (h : mutSemantic mapping reprF ind gen ms tp = .ok (out, tp')) :
+    complete out = true := by
+  obtain ⟨pc, tr1, tp1, tr2, tp2, v, hpc, h1, h2, _, rfl⟩ := mutSemantic_ok h
+  obtain ⟨ti, hti, rfl⟩ := complete_iff_tree.1 hind
+  obtain ⟨t1, ht1, rfl⟩ := complete_iff_tree.1 (hgen _ _ _ h1)
+  obtain ⟨t2, ht2, rfl⟩ := complete_iff_tree.1 (hgen _ _ _ h2)
+  exact complete_iff_tree.2 ⟨_, semMutTree_wf (hok pc hpc) _ hti ht1 ht2, (semMutList_flatten _ _ _ _ _).symm⟩
+
+example : (∀ pc, semPieces gsMapping = some pc → SemArity pc) ∧ complete [gsX] = true := by
+  refine ⟨?_, by decide⟩
+  intro pc h
+  have : pc = ⟨gsLf, gsMul, gsAdd, gsSub⟩ := by
+    simp [semPieces, gsMapping] at h; exact h.symm
+  subst this
+  constructor <;> rfl
+
+/-- **Size of a semantic mutant.**  The two random trees are the results of two consecutive calls of the generator;
+the child has exactly `len(parent) + len(tr1) + len(tr2) + 6` nodes (root `add`, `mul`, the constant, `sub`, two `lf`),
+the parent's nodes sit unchanged behind the new root, and the mutation step is the given `ms` or, when none is given,
+`0 + (2 - 0) · x` for the next `random()` draw `x` — the tape is otherwise consumed by the generator only. -/
+theorem semantic_mut_size {mapping : String → Option Prim} {reprF : Float → String}
+    {ind out : List Prim} {gen : Tape → R (List Prim × Tape)} {ms : Option Float} {tp tp' : Tape}
+    (h : mutSemantic mapping reprF ind gen ms tp = .ok (out, tp')) :
+    ∃ tr1 tp1 tr2 tp2, gen tp = .ok (tr1, tp1) ∧ gen tp1 = .ok (tr2, tp2) ∧
+      out.length = ind.length + tr1.length + tr2.length + 6 ∧
+      (out.drop 1).take ind.length = ind ∧
+      ((∃ v, ms = some v ∧ tp' = tp2) ∨ (ms = none ∧ ∃ x, tp2 = .rnd x :: tp')) := by
+  obtain ⟨pc, tr1, tp1, tr2, tp2, v, hpc, h1, h2, hms, rfl⟩ := mutSemantic_ok h
+  refine ⟨tr1, tp1, tr2, tp2, h1, h2, semMutList_length _ _ _ _ _, semMutList_parent _ _ _ _ _, ?_⟩
+  rcases hms with ⟨hv, ht⟩ | ⟨hn, hu⟩
+  · exact Or.inl ⟨v, hv, ht⟩
+  · refine Or.inr ⟨hn, ?_⟩
+    unfold popUniform popRnd at hu
+    split at hu
+    · cases hu
+    · rename_i x tp3 hx
+      split at hx
+      · cases hx
+      · rename_i y tpy
+        injection hx with hx; injection hx with _ e2
+        injection hu with hu; injection hu with _ e4
+        exact ⟨y, by rw [← e4, ← e2]⟩
+      · cases hx
+
+example : ∃ out tp', mutSemantic gsMapping (fun _ => "m") [gsX] gsGen none [.rnd 0.25] = .ok (out, tp') ∧
+    out.length = 9 := ⟨_, _, rfl, rfl⟩
+
+/-- **`cxSemantic` is closed** (both children), under the same hypotheses.  The second child is assembled after
+the first parent object was changed in place, so its last argument is the first CHILD (see `semantic_cx_size`). -/
+theorem semantic_cx_closed {sub : Nat → Nat → Bool} {mapping : String → Option Prim} {reprF : Float → String} {ρ : Nat}
+    {ind1 ind2 o1 o2 : List Prim} {gen : Tape → R (List Prim × Tape)} {tp tp' : Tape}
+    (hok : ∀ pc, semPieces mapping = some pc → SemOK sub pc ρ)
+    (h1 : WellFormed sub ρ ind1) (h2 : WellFormed sub ρ ind2)
+    (hgen : ∀ tp o tp', gen tp = .ok (o, tp') → WellFormed sub ρ o)
+    (h : cxSemantic mapping reprF ind1 ind2 gen tp = .ok (o1, o2, tp')) :
+    WellFormed sub ρ o1 ∧ WellFormed sub ρ o2 := by
+  obtain ⟨pc, tr, hpc, hg, e1, e2⟩ := cxSemantic_ok h
+  obtain ⟨ta, hta, rfl⟩ := h1
+  obtain ⟨tb, htb, rfl⟩ := h2
+  obtain ⟨t, ht, rfl⟩ := hgen _ _ _ hg
+  have ok := hok pc hpc
+  have w1 : wt sub ρ (semCxTree pc (constNode (reprF 1.0)) ta tb t) = true := semCxTree_wt ok _ hta htb ht
+  rw [semCxList_flatten] at e1
+  subst e1
+  rw [semCxList_flatten] at e2
+  subst e2
+  exact ⟨⟨_, w1, rfl⟩, ⟨_, semCxTree_wt ok _ htb w1 ht, rfl⟩⟩
+
+example : (cxSemantic gsMapping (fun _ => "1.0") [gsX] [gsX] gsGen []).toOption.map
+    (fun r => (r.1.map (·.name), r.2.1.length)) =
+      some (["add", "mul", "ARG0", "lf", "ARG0", "mul", "sub", "1.0", "lf", "ARG0", "ARG0"], 21) := by decide
+
+/-- arities only, both children -/
+theorem semantic_cx_complete {mapping : String → Option Prim} {reprF : Float → String}
+    {ind1 ind2 o1 o2 : List Prim} {gen : Tape → R (List Prim × Tape)} {tp tp' : Tape}
+    (hok : ∀ pc, semPieces mapping = some pc → SemArity pc)
+    (h1 : complete ind1 = true) (h2 : complete ind2 = true)
+    (hgen : ∀ tp o tp', gen tp = .ok (o, tp') → complete o = true)
+    (h : cxSemantic mapping reprF ind1 ind2 gen tp = .ok (o1, o2, tp')) :
+    complete o1 = true ∧ complete o2 = true := by
+  obtain ⟨pc, tr, hpc, hg, e1, e2⟩ := cxSemantic_ok h
+  obtain ⟨ta, hta, rfl⟩ := complete_iff_tree.1 h1
+  obtain ⟨tb, htb, rfl⟩ := complete_iff_tree.1 h2
+  obtain ⟨t, ht, rfl⟩ := complete_iff_tree.1 (hgen _ _ _ hg)
+  have ok := hok pc hpc
+  have w1 : wf (semCxTree pc (constNode (reprF 1.0)) ta tb t) = true := semCxTree_wf ok _ hta htb ht
+  rw [semCxList_flatten] at e1
+  subst e1
+  rw [semCxList_flatten] at e2
+  subst e2
+  exact ⟨complete_iff_tree.2 ⟨_, w1, rfl⟩, complete_iff_tree.2 ⟨_, semCxTree_wf ok _ htb w1 ht, rfl⟩⟩
+
+example : complete [gsX] = true ∧ ∀ tp o tp', gsGen tp = .ok (o, tp') → complete o = true := by
+  refine ⟨by decide, ?_⟩
+  intro tp o tp' h
+  simp [gsGen] at h
+  obtain ⟨rfl, _⟩ := h
+  decide
+
+/-- **Sizes of the semantic offspring.**  One random tree `tr` is generated (the only draws taken from the tape).
+Child 1 has `len(ind1) + len(ind2) + 2·len(tr) + 7` nodes.  Child 2 contains CHILD 1 (not parent 1: `new_ind1` is
+`ind1`, extended in place before `new_ind2.extend(ind1)` runs), so it has `len(ind2) + len(child1) + 2·len(tr) + 7 =
+len(ind1) + 2·len(ind2) + 4·len(tr) + 14` nodes; each child starts with `add`, `mul` followed by its own parent. -/
+theorem semantic_cx_size {mapping : String → Option Prim} {reprF : Float → String}
+    {ind1 ind2 o1 o2 : List Prim} {gen : Tape → R (List Prim × Tape)} {tp tp' : Tape}
+    (h : cxSemantic mapping reprF ind1 ind2 gen tp = .ok (o1, o2, tp')) :
+    ∃ tr, gen tp = .ok (tr, tp') ∧
+      o1.length = ind1.length + ind2.length + 2 * tr.length + 7 ∧
+      o2.length = ind1.length + 2 * ind2.length + 4 * tr.length + 14 ∧
+      (o1.drop 2).take ind1.length = ind1 ∧ (o2.drop 2).take ind2.length = ind2 ∧
+      o2.drop (o2.length - o1.length) = o1 := by
+  obtain ⟨pc, tr, hpc, hg, e1, e2⟩ := cxSemantic_ok h
+  have l1 : o1.length = ind1.length + ind2.length + 2 * tr.length + 7 := by rw [e1, semCxList_length]
+  have l2 : o2.length = ind2.length + o1.length + 2 * tr.length + 7 := by rw [e2, semCxList_length]
+  refine ⟨tr, hg, l1, by omega, by rw [e1, semCxList_parent], by rw [e2, semCxList_parent], ?_⟩
+  have : o2.length - o1.length = ind2.length + 2 * tr.length + 7 := by omega
+  rw [this, e2]
+  simp only [semCxList]
+  rw [List.drop_append_of_le_length (by simp; omega)]
+  simp
+  omega
+
+example : ∃ o1 o2 tp', cxSemantic gsMapping (fun _ => "1.0") [gsX] [gsX, gsX] gsGen [] = .ok (o1, o2, tp') :=
+  ⟨_, _, _, rfl⟩
+
+/-- **The assertion on the primitive set.**  When one of the names `lf`, `mul`, `add`, `sub` is not a key of
+`pset.mapping`, neither operator returns anything (the code raises before it generates a tree or draws a number). -/
+theorem semantic_missing_primitive {mapping : String → Option Prim} (reprF : Float → String)
+    (ind ind2 : List Prim) (gen : Tape → R (List Prim × Tape)) (ms : Option Float) (tp : Tape)
+    (hmiss : mapping "lf" = none ∨ mapping "mul" = none ∨ mapping "add" = none ∨ mapping "sub" = none) :
+    mutSemantic mapping reprF ind gen ms tp = .error .raised ∧
+    cxSemantic mapping reprF ind ind2 gen tp = .error .raised := by
+  have hp : semPieces mapping = none := by
+    unfold semPieces
+    cases h1 : mapping "lf" <;> cases h2 : mapping "mul" <;> cases h3 : mapping "add" <;>
+      cases h4 : mapping "sub" <;> simp_all
+  simp [mutSemantic, cxSemantic, hp]
+
+example : (fun k => if k = "add" then some gsAdd else none : String → Option Prim) "lf" = none := by decide
+
 /-! ## The pools -/
 
 /-- `PrimitiveSetTyped._add` (as modelled by `addPrim`): after any sequence of additions, the pool
@@ -1354,5 +1545,183 @@ theorem psetOK_of_adds (sub : Nat → Nat → Bool) (refl : ∀ a, sub a a = tru
     exact h2 e he p hxe
 
 example : ∀ p ∈ [pTrue, pAdd, pLt, pOne], (p.kind = .prim → p.args ≠ []) ∧ (p.kind ≠ .prim → p.args = []) := by decide
+
+/-! ## The primitive set as a state machine of declarations
+
+`PrimitiveSetTyped(name, in_types, ret)` / `PrimitiveSet(name, arity)` followed by any history of `addPrimitive`,
+`addTerminal`, `addEphemeralConstant`, `addADF`, `renameArguments` (`Core/GpPset.lean`: `runDecls` from `PState.init`).
+`declPrims` / `declTerms` are the nodes the history handed to `_add` ("the declared symbols"). -/
+
+/-- **Every lookup returns exactly the declared symbols whose return type is a subclass of the key.**  After any
+history of declarations and renamings that succeeds (no assertion fails) and in which nobody READ the pools of a type
+the set did not know yet, for every type `τ` the set knows (a key of the dictionary: the return or an argument type of
+some declared symbol), `pset.primitives[τ]` holds a node iff it is a declared `Primitive` (or ADF) with
+`issubclass(ret, τ)`, and `pset.terminals[τ]` iff it is a declared terminal / argument / ephemeral class with
+`issubclass(ret, τ)` — whatever the order in which supertypes, subtypes and symbols were first seen. -/
+theorem pset_lookup_exact (sub : Nat → Nat → Bool) (refl : ∀ a, sub a a = true)
+    (trans : ∀ a b c, sub a b = true → sub b c = true → sub a c = true)
+    (inTypes : List Nat) (pre : String) (ret : Nat) (ds : List Decl) (st : PState) (hn : NoTouch ds)
+    (hs : runDecls sub (PState.init sub inTypes pre) ds = some st) (τ : Nat) (x : Prim) :
+    (dictHas st.dicts.prims τ = true →
+      (x ∈ (st.toPset sub ret).prims τ ↔ (x ∈ st.declPrims ∧ sub x.ret τ = true))) ∧
+    (dictHas st.dicts.terms τ = true →
+      (x ∈ (st.toPset sub ret).terms τ ↔ (x ∈ st.declTerms ∧ sub x.ret τ = true))) := by
+  have hex := runDecls_exact refl trans ds _ st hn (init_exact refl trans inTypes pre) hs
+  exact ⟨fun hk => dictGet_exact x hex.1 hk, fun hk => dictGet_exact x hex.2 hk⟩
+
+/-- two declaration histories of the same symbols: the subclass terminal before / after the supertype is known -/
+def exDeclsA : List Decl :=
+  [.term (some "b1") 10 .other "10" "10" 2, .prim "g" 11 [1] 2, .prim "f" 12 [1, 1] 1, .term none 13 (.int 1) "1" "1" 1,
+   .eph "E" 14 2]
+def exDeclsB : List Decl := exDeclsA.reverse
+
+theorem exDecls_plain : Plain exDeclsA ∧ Plain exDeclsB := by
+  constructor <;> (intro d hd; simp [exDeclsA, exDeclsB] at hd; rcases hd with rfl | rfl | rfl | rfl | rfl <;> rfl)
+
+example : NoTouch exDeclsA := plain_noTouch exDecls_plain.1
+
+example : (runDecls exSub (PState.init exSub [1] "ARG") exDeclsA).map
+      (fun st => ((dictGet st.dicts.terms 1).map (·.name), (dictGet st.dicts.prims 2).map (·.name))) =
+      some (["ARG0", "b1", "1", "E"], ["g"]) := by decide
+
+example : (runDecls exSub (PState.init exSub [1] "ARG") exDeclsA).map
+      (fun st => (st.termsCount, st.primsCount, st.context.map (·.1))) = some (4, 2, ["b1", "g", "f", "1"]) := by decide
+
+example : (runDecls exSub (PState.init exSub [1] "ARG") exDeclsA).map (fun st => st.mapping.map (·.1)) =
+    some ["ARG0", "b1", "g", "f", "1", "E"] := by decide
+
+/-- **Which symbols are declared, and the counters.**  For a history of declarations proper (`Plain`: no renaming,
+no read access) that succeeds: the declared primitives are the `Primitive` nodes of the declarations in order
+(`addPrimitive`, `addADF`), the declared terminals are the argument terminals of the constructor followed by the
+terminal / ephemeral nodes of the declarations (an ephemeral class declared again under the same name with the same
+function and type is the same node again); `prims_count` / `terms_count` are their numbers (arguments included), the
+argument names are untouched, and `terminalRatio` is `terms / (terms + prims)`. -/
+theorem pset_declared (sub : Nat → Nat → Bool) (inTypes : List Nat) (pre : String) (ds : List Decl) (st : PState)
+    (hp : Plain ds) (hs : runDecls sub (PState.init sub inTypes pre) ds = some st) :
+    st.declPrims = (ds.filterMap Decl.node).filter (fun x => decide (x.kind = .prim)) ∧
+    (∃ args, args.length = inTypes.length ∧ (∀ a ∈ args, a.kind = .term) ∧
+      st.declTerms = args ++ (ds.filterMap Decl.node).filter (fun x => !decide (x.kind = .prim))) ∧
+    st.primsCount = ((ds.filterMap Decl.node).filter (fun x => decide (x.kind = .prim))).length ∧
+    st.termsCount = inTypes.length + ((ds.filterMap Decl.node).filter (fun x => !decide (x.kind = .prim))).length ∧
+    st.terminalRatio = (if st.termsCount + st.primsCount = 0 then none
+      else some (Float.ofNat st.termsCount / Float.ofNat (st.termsCount + st.primsCount))) := by
+  obtain ⟨m0, a0, b0, c0, d0, e0⟩ := initArgs_decl sub pre inTypes 0 PState.empty (by intro e he; simp [PState.empty] at he)
+  have a0' : (PState.init sub inTypes pre).declPrims = [] := a0
+  have b0' : (PState.init sub inTypes pre).declTerms.length = 0 + inTypes.length := b0
+  have c0' : (PState.init sub inTypes pre).primsCount = 0 := c0
+  have d0' : (PState.init sub inTypes pre).termsCount = 0 + inTypes.length := d0
+  obtain ⟨_, a, b, c, d, _⟩ := runDecls_plain ds (PState.init sub inTypes pre) st hp m0 hs
+  refine ⟨?_, ⟨(PState.init sub inTypes pre).declTerms, ?_, ?_, b⟩, ?_, ?_, rfl⟩
+  · rw [a, a0']; simp
+  · rw [b0']; simp
+  · intro x hx
+    rcases e0 x hx with h | h
+    · simp [PState.empty] at h
+    · exact h
+  · rw [c, c0']; simp
+  · rw [d, d0']; simp
+
+example : Plain exDeclsA ∧ Plain exDeclsB := exDecls_plain
+
+/-- **Lookups do not depend on the order of the declarations.**  Two histories that declare the same symbols in
+different orders (permutations of one another, both accepted): every type known to both sets has the same members in
+`primitives[τ]` and in `terminals[τ]`, and the two sets have the same counters, hence the same `terminalRatio`.
+(The ORDER of the members inside a pool does follow the history — it decides which element a given `random.choice`
+draw picks, not what can be picked; and a symbol declared twice can occur once or twice in a pool depending on whether
+the key existed at the time — multiplicity is not claimed.) -/
+theorem pset_lookup_order_independent (sub : Nat → Nat → Bool) (refl : ∀ a, sub a a = true)
+    (trans : ∀ a b c, sub a b = true → sub b c = true → sub a c = true)
+    (inTypes : List Nat) (pre : String) (ret : Nat) (ds1 ds2 : List Decl) (st1 st2 : PState)
+    (hperm : ds1.Perm ds2) (hp : Plain ds1)
+    (h1 : runDecls sub (PState.init sub inTypes pre) ds1 = some st1)
+    (h2 : runDecls sub (PState.init sub inTypes pre) ds2 = some st2) :
+    (∀ τ x, dictHas st1.dicts.prims τ = true → dictHas st2.dicts.prims τ = true →
+      (x ∈ (st1.toPset sub ret).prims τ ↔ x ∈ (st2.toPset sub ret).prims τ)) ∧
+    (∀ τ x, dictHas st1.dicts.terms τ = true → dictHas st2.dicts.terms τ = true →
+      (x ∈ (st1.toPset sub ret).terms τ ↔ x ∈ (st2.toPset sub ret).terms τ)) ∧
+    st1.termsCount = st2.termsCount ∧ st1.primsCount = st2.primsCount ∧ st1.terminalRatio = st2.terminalRatio := by
+  have hp2 : Plain ds2 := fun d hd => hp d (hperm.mem_iff.2 hd)
+  obtain ⟨m0, _⟩ := initArgs_decl sub pre inTypes 0 PState.empty (by intro e he; simp [PState.empty] at he)
+  obtain ⟨_, a1, b1, c1, d1, _⟩ := runDecls_plain ds1 _ st1 hp m0 h1
+  obtain ⟨_, a2, b2, c2, d2, _⟩ := runDecls_plain ds2 _ st2 hp2 m0 h2
+  have pn := hperm.filterMap Decl.node
+  have pP := pn.filter (fun x => decide (x.kind = .prim))
+  have pT := pn.filter (fun x => !decide (x.kind = .prim))
+  have eP : ∀ x, x ∈ st1.declPrims ↔ x ∈ st2.declPrims := by
+    intro x; rw [a1, a2, List.mem_append, List.mem_append, pP.mem_iff]
+  have eT : ∀ x, x ∈ st1.declTerms ↔ x ∈ st2.declTerms := by
+    intro x; rw [b1, b2, List.mem_append, List.mem_append, pT.mem_iff]
+  have hc : st1.termsCount = st2.termsCount := by rw [d1, d2, pT.length_eq]
+  have hq : st1.primsCount = st2.primsCount := by rw [c1, c2, pP.length_eq]
+  refine ⟨?_, ?_, hc, hq, by simp [PState.terminalRatio, hc, hq]⟩
+  · intro τ x k1 k2
+    rw [(pset_lookup_exact sub refl trans inTypes pre ret ds1 st1 (plain_noTouch hp) h1 τ x).1 k1,
+      (pset_lookup_exact sub refl trans inTypes pre ret ds2 st2 (plain_noTouch hp2) h2 τ x).1 k2, eP]
+  · intro τ x k1 k2
+    rw [(pset_lookup_exact sub refl trans inTypes pre ret ds1 st1 (plain_noTouch hp) h1 τ x).2 k1,
+      (pset_lookup_exact sub refl trans inTypes pre ret ds2 st2 (plain_noTouch hp2) h2 τ x).2 k2, eT]
+
+example : exDeclsA.Perm exDeclsB ∧
+    (runDecls exSub (PState.init exSub [1] "ARG") exDeclsB).map
+      (fun st => ((dictGet st.dicts.terms 1).map (·.name), (dictGet st.dicts.prims 2).map (·.name))) =
+      some (["ARG0", "E", "1", "b1"], ["g"]) :=
+  ⟨(List.reverse_perm _).symm, by decide⟩
+
+/-- **Why the hypothesis `NoTouch` is there (observation on the unchanged code).**  The pools are `defaultdict`s:
+READING `pset.terminals[T]` for a type the set has not seen yet stores an empty list under `T`; when `T` is
+declared later, `_add` finds the key present and does not collect the already declared subclass symbols.  The same
+three steps in another order give another pool. -/
+theorem pset_read_before_declare :
+    (runDecls exSub (PState.init exSub [] "ARG")
+        [.term (some "b1") 10 .other "10" "10" 2, .touchT 1, .prim "f" 12 [1] 1]).map
+      (fun st => (dictGet st.dicts.terms 1).map (·.name)) = some [] ∧
+    (runDecls exSub (PState.init exSub [] "ARG")
+        [.term (some "b1") 10 .other "10" "10" 2, .prim "f" 12 [1] 1, .touchT 1]).map
+      (fun st => (dictGet st.dicts.terms 1).map (·.name)) = some ["b1"] := by decide
+
+/-- **`PrimitiveSet`, the untyped wrapper.**  Every symbol declared through `PrimitiveSet.addPrimitive / addTerminal /
+addEphemeralConstant` (and the arguments of `PrimitiveSet(name, arity)`) returns `object` and takes `object`s, a
+primitive has at least one argument, and `pset.primitives[object]` / `pset.terminals[object]` hold all of them. -/
+theorem pset_untyped (sub : Nat → Nat → Bool) (refl : ∀ a, sub a a = true)
+    (trans : ∀ a b c, sub a b = true → sub b c = true → sub a c = true)
+    (arity : Nat) (pre : String) (ds : List Decl) (st : PState)
+    (hu : ∀ d ∈ ds, (∃ n o a, d = .uprim n o a) ∨ (∃ n o v s r, d = .uterm n o v s r) ∨ (∃ n f, d = .ueph n f))
+    (hs : runDecls sub (PState.initU sub arity pre) ds = some st) (x : Prim) :
+    (x ∈ st.declPrims → x.ret = objT ∧ (∀ a ∈ x.args, a = objT) ∧ x.args ≠ [] ∧
+      x ∈ (st.toPset sub objT).prims objT) := by
+  have hpl : Plain ds := by
+    intro d hd
+    rcases hu d hd with ⟨n, o, a, rfl⟩ | ⟨n, o, v, s, r, rfl⟩ | ⟨n, f, rfl⟩
+    · rfl
+    · cases n <;> rfl
+    · rfl
+  obtain ⟨hP, _⟩ := pset_declared sub (List.replicate arity objT) pre ds st hpl hs
+  intro hx
+  have hx' := hx
+  rw [hP, List.mem_filter, List.mem_filterMap] at hx'
+  obtain ⟨⟨d, hd, hn⟩, hk⟩ := hx'
+  have hform : x.ret = objT ∧ (∀ a ∈ x.args, a = objT) ∧ x.args ≠ [] := by
+    rcases hu d hd with ⟨n, o, a, rfl⟩ | ⟨n, o, v, s, r, rfl⟩ | ⟨n, f, rfl⟩
+    · simp only [Decl.node, Option.some.injEq] at hn
+      subst hn
+      refine ⟨rfl, fun a ha => by simpa using (List.mem_replicate.1 ha).2, ?_⟩
+      -- `arity > 0` is asserted by the wrapper: a zero arity makes the history fail
+      intro h0
+      have ha0 : a = 0 := by simpa using h0
+      subst ha0
+      exact absurd hs (uprim_zero_fails sub _ ds n o hd)
+    · cases n <;> (simp only [Decl.node, Option.some.injEq] at hn; subst hn; simp at hk)
+    · simp only [Decl.node, Option.some.injEq] at hn; subst hn; simp at hk
+  refine ⟨hform.1, hform.2.1, hform.2.2, ?_⟩
+  have hex := runDecls_exact refl trans ds _ st (plain_noTouch hpl) (init_exact refl trans _ pre) hs
+  have hkey : dictHas st.dicts.prims objT = true := by
+    have := hex.1.2 x hx
+    rwa [hform.1] at this
+  exact (dictGet_exact x hex.1 hkey).2 ⟨hx, by rw [hform.1]; exact refl _⟩
+
+example : (runDecls subTrue (PState.initU subTrue 1 "ARG") [.uprim "neg" 1 0]) = none ∧
+    (runDecls subTrue (PState.initU subTrue 1 "ARG") [.uprim "neg" 1 1, .uterm none 2 (.int 1) "1" "1", .ueph "E" 3]).map
+      (fun st => ((dictGet st.dicts.prims 0).map (·.name), (dictGet st.dicts.terms 0).map (·.name), st.context.map (·.1))) =
+      some (["neg"], ["ARG0", "1", "E"], ["neg", "1"]) := by decide
 
 end C11
